@@ -341,19 +341,68 @@ def psumOfGRat (g : GRat) : Fft.PSum := Fft.PSum.ofRat g.re + Fft.PSum.ofRat g.i
 /-- complex conjugation of a formal phase sum: negate every phase -/
 def psumConj (a : Fft.PSum) : Fft.PSum := ⟨a.terms.map fun x => ⟨x.c, Fft.fracPart (-x.t), -x.r⟩⟩
 
-/-- forward / inverse DFT kernels `exp(∓2πi n/M)` as formal phases -/
-def pKerF (M : Nat) (n : Int) : Fft.PSum := Fft.PSum.turns (-((n : Rat) / (M : Rat)))
-def pKerB (M : Nat) (n : Int) : Fft.PSum := Fft.PSum.turns ((n : Rat) / (M : Rat))
+/-! ### one definition of the propagators, parametrised by the scalar type and its character
+
+`Scalar C` is what the pipeline needs of the numbers it computes with besides `0, +, ·`: the embedding of the rationals,
+the character `t ↦ exp(2πi t)` (phases in turns) and complex conjugation.  `fourierFilter`, `fourierFilterBackward`,
+`fresnelForward`, `fresnelBackward`, `fourierFilterM`, `fourierFilterMBackward` below are *the* model of
+`FourierFilter.forward/backward` and `FresnelPropagator.forward/backward` (transfer-function branch): the driver ops
+`filtp`, `prop`, `filtmp` run them at `psumScalar` (formal phase sums, exact for every size) and the harness compares the
+result with the running code; the property theorems of `Properties/C04.lean` are stated about the same definitions at
+`cScalar` (`ℂ`, `exp(2πi t)`; `Lemmas/NearFieldScalar.lean`). -/
+
+structure Scalar (C : Type) where
+  ofRat : Rat → C
+  turns : Rat → C
+  conj : C → C
+
+section scalarPipeline
+variable {C : Type} [Zero C] [Add C] [Mul C]
+
+/-- forward / inverse DFT kernels `exp(∓2πi n/M)` -/
+def Scalar.kerF (S : Scalar C) (M : Nat) (n : Int) : C := S.turns (-((n : Rat) / (M : Rat)))
+def Scalar.kerB (S : Scalar C) (M : Nat) (n : Int) : C := S.turns ((n : Rat) / (M : Rat))
+
+/-- `FourierFilter(grid, D, q).forward(x)`: `crop (ifftn (D · fftn (pad x)))` with the sizes and the cut-out of `p`;
+`D` in FFT layout. -/
+def fourierFilter (S : Scalar C) (p : Params) (D x : Nat → Nat → C) : Nat → Nat → C :=
+  filterP p (S.kerF (my p)) (S.kerF (mx p)) (S.kerB (my p)) (S.kerB (mx p))
+    (S.ofRat (1 / ((my p * mx p : Nat) : Rat))) D x
+
+/-- `FourierFilter(grid, D, q).backward(x)`: the same with the conjugated transfer function. -/
+def fourierFilterBackward (S : Scalar C) (p : Params) (D x : Nat → Nat → C) : Nat → Nat → C :=
+  filterPBackward S.conj p (S.kerF (my p)) (S.kerF (mx p)) (S.kerB (my p)) (S.kerB (mx p))
+    (S.ofRat (1 / ((my p * mx p : Nat) : Rat))) D x
+
+/-- mean of `exp(2πi t)` over a list of phases in turns (`evaluate_supersampled`: the sub-pixel average) -/
+def meanTurns (S : Scalar C) (l : List Rat) : C :=
+  S.ofRat (1 / (l.length : Rat)) * (l.map S.turns).foldr (· + ·) 0
+
+/-- The Fresnel transfer function that multiplies FFT bin `(qy,qx)` (`ifftshift` applied): the sub-pixel mean of
+`exp(2πi · fresnelTurns)` over the executable sample frequencies of the centred pixel. -/
+def fresnelTF (S : Scalar C) (p : Params) (qy qx : Nat) : C :=
+  meanTurns S (fresnelSubTurns p (ifftshiftIdx (mx p) qx) (ifftshiftIdx (my p) qy))
+
+/-- `FresnelPropagator.forward` on a scalar field (transfer-function branch of `make_instance`). -/
+def fresnelForward (S : Scalar C) (p : Params) (x : Nat → Nat → C) : Nat → Nat → C :=
+  fourierFilter S p (fresnelTF S p) x
+
+/-- `FresnelPropagator.backward`. -/
+def fresnelBackward (S : Scalar C) (p : Params) (x : Nat → Nat → C) : Nat → Nat → C :=
+  fourierFilterBackward S p (fresnelTF S p) x
+
+end scalarPipeline
+
+/-- the executable instance: formal phase sums -/
+def psumScalar : Scalar Fft.PSum := ⟨Fft.PSum.ofRat, Fft.PSum.turns, psumConj⟩
 
 /-- What the driver op `filtp` computes (as `filtOp`, any internal size): one formal phase sum per output pixel. -/
 def filtOpP (p : Params) (back : Bool) (D x : List GRat) : List Fft.PSum :=
   let My := my p
   let Mx := mx p
-  let sc := Fft.PSum.ofRat (1 / ((My * Mx : Nat) : Rat))
   let Ds := shiftD My Mx (fun a b => psumOfGRat (gratArr Mx D a b))
   let xs := fun a b => psumOfGRat (gratArr p.nx x a b)
-  let r := if back then filterPBackward psumConj p (pKerF My) (pKerF Mx) (pKerB My) (pKerB Mx) sc Ds xs
-           else filterP p (pKerF My) (pKerF Mx) (pKerB My) (pKerB Mx) sc Ds xs
+  let r := if back then fourierFilterBackward psumScalar p Ds xs else fourierFilter psumScalar p Ds xs
   (List.range p.ny).flatMap fun iy => (List.range p.nx).map fun ix => r iy ix
 
 /-! ### the Fresnel propagator itself, exactly
@@ -361,23 +410,11 @@ def filtOpP (p : Params) (back : Bool) (D x : List GRat) : List Fft.PSum :=
 On the transfer-function branch the Fresnel transfer function at an internal pixel is the mean of `exp(2πi t)` over the
 rational phases `fresnelSubTurns` — a formal phase sum.  So the whole `FresnelPropagator.forward` is computed exactly. -/
 
-/-- mean of `exp(2πi t)` over a list of phases in turns -/
-def psumMeanTurns (l : List Rat) : Fft.PSum :=
-  Fft.PSum.ofRat (1 / (l.length : Rat)) * (l.map Fft.PSum.turns).foldr (· + ·) 0
-
-/-- the Fresnel transfer function that multiplies FFT bin `(qy,qx)` (`ifftshift` applied), as a formal phase sum -/
-def fresnelTFP (p : Params) (qy qx : Nat) : Fft.PSum :=
-  psumMeanTurns (fresnelSubTurns p (ifftshiftIdx (mx p) qx) (ifftshiftIdx (my p) qy))
-
 /-- What the driver op `prop` computes: `FresnelPropagator(...).forward(x)` / `.backward(x)` (transfer-function branch) on
 formal phase sums; `x` row-major `ny·nx` Gaussian rationals. -/
 def propOpP (p : Params) (back : Bool) (x : List GRat) : List Fft.PSum :=
-  let My := my p
-  let Mx := mx p
-  let sc := Fft.PSum.ofRat (1 / ((My * Mx : Nat) : Rat))
   let xs := fun a b => psumOfGRat (gratArr p.nx x a b)
-  let r := if back then filterPBackward psumConj p (pKerF My) (pKerF Mx) (pKerB My) (pKerB Mx) sc (fresnelTFP p) xs
-           else filterP p (pKerF My) (pKerF Mx) (pKerB My) (pKerB Mx) sc (fresnelTFP p) xs
+  let r := if back then fresnelBackward psumScalar p xs else fresnelForward psumScalar p xs
   (List.range p.ny).flatMap fun iy => (List.range p.nx).map fun ix => r iy ix
 
 /-! ### the pipeline with a matrix-valued transfer function (`field_dot(tf, ·)` between the transforms) -/
@@ -405,6 +442,17 @@ def filterMPBackward (cj : C → C) (p : Params) (kFy kFx kBy kBx : Int → C) (
     (D : Nat → Nat → Fin n → Fin n → C) (x : Fin n → Nat → Nat → C) : Fin n → Nat → Nat → C :=
   filterMNBackward cj (my p) (mx p) kFy kFx kBy kBx scale (cutStart (my p) p.ny) (cutStart (mx p) p.nx) p.ny p.nx D x
 
+/-- `FourierFilter(grid, tensor D, q).forward(x)` / `.backward(x)` on a vector field, at the scalar `S`. -/
+def fourierFilterM (S : Scalar C) (p : Params) (D : Nat → Nat → Fin n → Fin n → C) (x : Fin n → Nat → Nat → C) :
+    Fin n → Nat → Nat → C :=
+  filterMP p (S.kerF (my p)) (S.kerF (mx p)) (S.kerB (my p)) (S.kerB (mx p))
+    (S.ofRat (1 / ((my p * mx p : Nat) : Rat))) D x
+
+def fourierFilterMBackward (S : Scalar C) (p : Params) (D : Nat → Nat → Fin n → Fin n → C)
+    (x : Fin n → Nat → Nat → C) : Fin n → Nat → Nat → C :=
+  filterMPBackward S.conj p (S.kerF (my p)) (S.kerF (mx p)) (S.kerB (my p)) (S.kerB (mx p))
+    (S.ofRat (1 / ((my p * mx p : Nat) : Rat))) D x
+
 end pipelineM
 
 /-- What the driver op `filtmp` computes: `FourierFilter(grid, D, q).forward(x)` / `.backward(x)` for an `n×n` matrix
@@ -413,12 +461,10 @@ transfer function `D` (centred; list index `(i·n + j)·My·Mx + pixel`) and a v
 def filtMOpP (p : Params) (n : Nat) (back : Bool) (D x : List GRat) : List Fft.PSum :=
   let My := my p
   let Mx := mx p
-  let sc := Fft.PSum.ofRat (1 / ((My * Mx : Nat) : Rat))
   let Dc : Nat → Nat → Fin n → Fin n → Fft.PSum := fun a b i j => psumOfGRat (D.getD ((i.val * n + j.val) * (My * Mx) + (a * Mx + b)) 0)
   let Ds : Nat → Nat → Fin n → Fin n → Fft.PSum := fun qy qx => Dc (ifftshiftIdx My qy) (ifftshiftIdx Mx qx)
   let xs : Fin n → Nat → Nat → Fft.PSum := fun t a b => psumOfGRat (x.getD (t.val * (p.ny * p.nx) + (a * p.nx + b)) 0)
-  let r := if back then filterMPBackward psumConj p (pKerF My) (pKerF Mx) (pKerB My) (pKerB Mx) sc Ds xs
-           else filterMP p (pKerF My) (pKerF Mx) (pKerB My) (pKerB Mx) sc Ds xs
+  let r := if back then fourierFilterMBackward psumScalar p Ds xs else fourierFilterM psumScalar p Ds xs
   (List.finRange n).flatMap fun t => (List.range p.ny).flatMap fun iy => (List.range p.nx).map fun ix => r t iy ix
 
 /-! ### One propagator object used repeatedly: the setters between calls
@@ -444,5 +490,50 @@ def withParam (p : Params) : Setter → Params
 
 /-- The parameters in force after a sequence of setter calls. -/
 def afterSetters (p : Params) (l : List Setter) : Params := l.foldl withParam p
+
+/-! ### dtype / tensor-shape bookkeeping of one `FourierFilter` object (`_compute_functions`, fourier_operations.py l.40-56)
+
+The object caches the `ifftshift`ed transfer function cast to the dtype of the last field (`_transfer_function`) and a
+scratch array per dtype and tensor shape (`internal_array`).  A call with a field of dtype `dt` and tensor shape `ts`
+recomputes the transfer function *from its source* when none is cached or the cached dtype differs, and reallocates the
+scratch array when none exists or its rank, dtype or tensor shape differ.  Driver op `dtypes`; compared with the
+attributes of the real object after every call of a session. -/
+
+inductive Dt where
+  | c64 | c128
+deriving Repr, DecidableEq
+
+structure FState where
+  tf : Option Dt := none                  -- dtype of the cached `_transfer_function`
+  arr : Option (Dt × List Nat) := none    -- dtype and tensor shape of `internal_array`
+deriving Repr, DecidableEq
+
+structure Call where
+  dt : Dt
+  ts : List Nat
+deriving Repr, DecidableEq
+
+/-- is the transfer function recomputed from its source by this call? -/
+def tfRecomputed (s : FState) (c : Call) : Bool :=
+  match s.tf with
+  | none => true
+  | some d => decide (d ≠ c.dt)
+
+/-- is the scratch array reallocated by this call? -/
+def arrRecomputed (s : FState) (c : Call) : Bool :=
+  match s.arr with
+  | none => true
+  | some (d, ts) => decide (ts.length ≠ c.ts.length) || decide (d ≠ c.dt) || decide (ts ≠ c.ts)
+
+def callStep (s : FState) (c : Call) : FState :=
+  { tf := if tfRecomputed s c then some c.dt else s.tf,
+    arr := if arrRecomputed s c then some (c.dt, c.ts) else s.arr }
+
+def runCalls (s : FState) (l : List Call) : FState := l.foldl callStep s
+
+/-- what the driver prints: per call the two recompute flags and the state after the call -/
+def traceCalls : FState → List Call → List (Bool × Bool × FState)
+  | _, [] => []
+  | s, c :: l => (tfRecomputed s c, arrRecomputed s c, callStep s c) :: traceCalls (callStep s c) l
 
 end HcipyVerif.NearField
